@@ -442,13 +442,13 @@ class Gen:
             lvl['blockLength'] = cur + r.choice([0, 1, 3, 8])
             self.hit('level.custom_blockLength')
         if depth < self.max_depth:
-            for _ in range(r.choice([0, 0, 1, 1, 2])):
+            for _ in range(r.choice([0, 0, 1, 1, 2, 3] if depth < 2 else [0, 1, 2])):
                 g = self.gen_level(types, pool, dims, datas, depth + 1)
                 g.update({'name': self.name('g'), 'id': self.n, 'dim': r.choice(dims)})
                 self.decorate(g, semantic=True)
                 lvl['groups'].append(g)
                 self.hit('group.depth%d' % (depth + 1))
-        for _ in range(r.choice([0, 0, 1, 2])):
+        for _ in range(r.choice([0, 0, 1, 2, 3, 4])):
             lvl['datas'].append(self.decorate({'name': self.name('d'), 'id': self.n, 'type': r.choice(datas)}))
             self.hit('data.depth%d' % depth)
         return lvl
